@@ -546,6 +546,9 @@ def check(run, db, tier):
     for fn in (emit_rules, shape_rules, seq2_shape_rules, sibling_rules, neg_rules, table_rules, shared_rules,
                seqtables.zernike_rules, seqtables.qbfs_seq_rules, seqtables.qcon_seq_rules, seqtables.q2d_seq_rules):
         run.group(fn, run, db)
+    run.rule('C08.fixed', 'for fixed order lists (dense, with gaps, single high order) and a symbolic coordinate, every slot of a *_seq function is identically the single-order function of the order requested there')
+    from . import fixedorders
+    run.group(fixedorders.fixed_order_rules, run, db, 'C08.fixed')
     run.require_instances('C08.emit', 60)
     run.require_instances('C08.shape', 80)
     run.require_instances('C08.sibling', 10)
